@@ -247,7 +247,7 @@ Definition spec_content (hs : list ahunk) (p : path) (n : node) : node :=
   match n with
   | File m c =>
       match find (fun fe => path_eqb (fst fe) p) (edits_by_file hs) with
-      | Some (_, es) => File m (spec_splice c es)
+      | Some (_, es) => File m (spec_splice c (sort_edits es))   (* a plan is a set of positioned edits: listing order is irrelevant *)
       | None => n
       end
   | _ => n
